@@ -45,6 +45,7 @@ let parse_op (tok : string) : op =
   | 'D', [i] -> ODueIn (nat_ i)
   | 'N', _ -> ONext
   | 'A', [d] -> OAdvance (z_of_string d)
+  | 'J', _ -> OAdvance (z_of_string "0")   (* start-counter jump in the implementation: order of ids unchanged *)
   | 'R', _ -> ORun
   | _ -> failwith ("bad timer op " ^ tok)
 
